@@ -465,6 +465,53 @@ def build_jobs(ctx):
         else:
             jobs.append(job_of(rng, "kcore_" + kind, src, A, k_bounds(n, kind), p_plain=0.4))
             jobs.append(job_of(rng, "kcoreness_centrality_" + kind, src, A, p_plain=0.4))
+    # ---- composites, 9..18 nodes: a high-degree / low-coreness part (star, caterpillar, double star)
+    #      joined by a bridge or a short path to a low-degree / high-coreness part (clique, complete
+    #      bipartite block, ring of cliques) - degree and coreness orders disagree, the deepest core
+    #      does not contain the highest-degree node (random graphs on <= 10 nodes hardly ever do that)
+    rng3 = random.Random("%s/C15-composite" % ctx.seed)
+    for t in range(45 if ctx.quick else 600):
+        hubs = rng3.randint(1, 2)
+        leaves = [rng3.randint(3, 7) for _ in range(hubs)]
+        edges, nxt = [], hubs
+        for h in range(hubs):
+            if h:
+                edges.append((h - 1, h))
+            for _ in range(leaves[h]):
+                edges.append((h, nxt))
+                nxt += 1
+        core = rng3.choice(["clique", "clique", "bipartite", "cliquering"])
+        base = nxt
+        if core == "clique":
+            m = rng3.randint(3, 6)
+            cedges = rc.s_complete(m)
+        elif core == "bipartite":
+            a = rng3.randint(2, 3)
+            m = 2 * a
+            cedges = rc.s_bipartite(a, a)
+        else:
+            m = 6
+            cedges = rc.s_clique_ring(2, 3)
+        edges += [(base + i, base + j) for i, j in cedges]
+        link = rng3.randint(0, 2)               # bridge, or a path of 1..2 extra nodes
+        chain = [rng3.randrange(hubs)] + [base + m + x for x in range(link)] + [base + rng3.randrange(m)]
+        edges += list(zip(chain[:-1], chain[1:]))
+        n = base + m + link
+        lab = list(range(n))
+        rng3.shuffle(lab)
+        edges = sorted(set((min(lab[a], lab[b]), max(lab[a], lab[b])) for a, b in edges))
+        kind = rng3.choice(["bu", "bu", "bd", "wu"])
+        if kind == "bd":
+            A = inputs.mat_from_edges(n, rc.orient(rng3, edges), und=False)
+        elif kind == "wu":
+            A = inputs.mat_from_edges(n, edges, und=True, w=[rng3.randint(1, 3) for _ in edges])
+        else:
+            A = inputs.mat_from_edges(n, edges, und=True)
+        if kind == "wu":
+            jobs.append(job_of(rng3, "score_wu", "composite", A, s_bounds_sparse(rng3, A), p_plain=0.5))
+        else:
+            jobs.append(job_of(rng3, "kcore_" + kind, "composite", A, k_bounds(n, kind), p_plain=0.5))
+            jobs.append(job_of(rng3, "kcoreness_centrality_" + kind, "composite", A, p_plain=0.5))
     # ---- scale regimes (own generator: the draws above stay what they were)
     rng2 = random.Random("%s/C15-scale" % ctx.seed)
     for t in range(160 if ctx.quick else 4000):
